@@ -14,14 +14,17 @@ CONSTANTS MaxOps,        \* operations per history
           HistChoices,   \* initial histograms [edges, bins, oor]
           Targets,       \* scales to rescale to (rationals, non-zero)
           NevTargets,    \* numbers of events to set (rationals, non-zero)
-          AddWeights     \* weights of add (integers)
+          AddWeights,    \* weights of add (integers)
+          SeqOnly        \* TRUE: only the operations whose interplay goes through the stored scale
+                         \* (scale(), scale(s), set_nevents, add whose result becomes the receiver), all orders
 
 VARIABLES a,    \* the histogram: [edges, bins, oor, cache]
           a0,   \* ghost: the histogram at the start
           n,    \* operations made
+          excuse,   \* ghost: the stored scale may be out of date for a documented reason (set_nevents after it was stored)
           h     \* ghost: history of operations with their results (hidden by the VIEW of the MC configs)
-vars == <<a, a0, n, h>>
-view == <<a, n>>
+vars == <<a, a0, n, excuse, h>>
+view == <<a, n, excuse>>
 
 \* ---- initial histograms -------------------------------------------------
 Mk(E, b, o) == Hist(E, b, o, NoneR)
@@ -73,14 +76,21 @@ HasOther(x, kind) == kind = "shorter" => Len(x.edges[Len(x.edges)]) > 2
 
 TolMeshes == {<<<<0, 2>>>>, <<<<-4, 1, 3, 20>>>>, <<<<0, 2, 6>>, <<-3, -1, 4>>>>, <<<<1, 2>>, <<0, 1, 4>>, <<2, 4, 8, 16>>>>}
 TolHists == {Hist(E, IotaB(E, 1, 0, 0), RI(0), NoneR) : E \in TolMeshes}
-Init == a \in HistChoices \cup TolHists /\ a0 = a /\ n = 0 /\ h = <<>>
+HistsSeq == {Hist(<<<<0, 2, 6>>>>, <<RI(1), <<3, 2>>>>, RI(3), NoneR),
+             Hist(<<<<0, 2>>, <<0, 1, 4>>>>, <<<<RI(2), RI(-1)>>>>, RI(0), NoneR),
+             Hist(<<<<0, 2>>, <<0, 1>>, <<2, 4, 8>>>>, <<<<<<RI(1), RI(1)>>>>>>, RI(1), NoneR)}
+TargetsSeq == {<<2, 1>>}
+NevSeq == {<<5, 1>>}
+WeightsSeq == {2}
+Init == a \in (IF SeqOnly THEN HistChoices ELSE HistChoices \cup TolHists) /\ a0 = a /\ n = 0 /\ excuse = FALSE /\ h = <<>>
 
 NoHist == Hist(<<>>, <<>>, NoneR, NoneR)
 \* fresh: the stored scale (if any) is the integral, i.e. the documented precondition of rescaling holds
 Fresh(x) == IsNone(x.cache) \/ x.cache = Integral(x.bins, x.edges)
-LogT(op, s, w, incl, rc, kind, ok, exc, val, b, r, tol, pert) ==
+LogI(op, s, w, incl, rc, kind, ok, exc, val, b, r, tol, pert, into) ==
   h' = Append(h, [op |-> op, s |-> s, w |-> w, incl |-> incl, rc |-> rc, kind |-> kind, fresh |-> Fresh(a),
-                  ok |-> ok, exc |-> exc, val |-> val, a |-> a', b |-> b, r |-> r, tol |-> tol, pert |-> pert])
+                  ok |-> ok, exc |-> exc, val |-> val, a |-> a', b |-> b, r |-> r, tol |-> tol, pert |-> pert, into |-> into])
+LogT(op, s, w, incl, rc, kind, ok, exc, val, b, r, tol, pert) == LogI(op, s, w, incl, rc, kind, ok, exc, val, b, r, tol, pert, FALSE)
 Log(op, s, w, incl, rc, kind, ok, exc, val, b, r) == LogT(op, s, w, incl, rc, kind, ok, exc, val, b, r, NoTol, NoPert)
 
 Op == n < MaxOps /\ n' = n + 1 /\ a0' = a0
@@ -88,25 +98,32 @@ Op == n < MaxOps /\ n' = n + 1 /\ a0' = a0
 GetScale == Op /\ \E rc \in BOOLEAN :
   LET v == CurScale(a, rc) IN
   /\ a' = [a EXCEPT !.cache = v]
+  /\ excuse' = (IF rc \/ IsNone(a.cache) THEN FALSE ELSE excuse)
   /\ Log("getscale", NoneR, 0, FALSE, rc, "", TRUE, "", v, NoHist, NoHist)
 \* hist.scale(s), ScaleTo(s)(hist), scale_to(s, [hist])
 Scale == Op /\ \E s \in Targets :
   LET r == ScaleOp(a, s) IN
   /\ a' = r.h
+  /\ excuse' = (IF IsNone(a.cache) THEN FALSE ELSE excuse)
   /\ Log("scale", s, 0, FALSE, FALSE, "", r.ok, r.exc, NoneR, NoHist, NoHist)
 \* hist.set_nevents(nev, include_out_of_range=incl); the log carries get_nevents(incl) afterwards
 SetNevents == Op /\ \E nev \in NevTargets, incl \in BOOLEAN :
   /\ ~RIsZero(Nevents(a.bins, a.oor, a.edges, incl))
   /\ LET r == SetNeventsOp(a, nev, incl) IN
      /\ a' = r.h
+     /\ excuse' = (excuse \/ ~IsNone(a.cache))       \* "one must explicitly recompute the scale if it was computed before"
      /\ Log("set_nevents", nev, 0, incl, FALSE, "", TRUE, "", Nevents(r.h.bins, r.h.oor, r.h.edges, incl), NoHist, NoHist)
-\* hist.add(other, weight): a new histogram, the operands stay
-Add == Op /\ \E kind \in OtherKinds, w \in AddWeights :
+\* hist.add(other, weight): a new histogram, the operands stay.  into: the harness goes on with the sum
+\* (c = a.add(b, w); then c.scale() ...): a new histogram whose scale was never computed
+Add == Op /\ \E kind \in OtherKinds, w \in AddWeights, into \in BOOLEAN :
   /\ HasOther(a, kind)
+  /\ SeqOnly => (into /\ kind \in {"same", "neg"})
   /\ LET b == Other(a, kind)
          r == AddOp(a, b, RI(w)) IN
-     /\ a' = a
-     /\ Log("add", NoneR, w, FALSE, FALSE, kind, r.ok, r.exc, NoneR, b, r.h)
+     /\ into => r.ok
+     /\ a' = (IF into THEN r.h ELSE a)
+     /\ excuse' = (IF into THEN FALSE ELSE excuse)
+     /\ LogI("add", NoneR, w, FALSE, FALSE, kind, r.ok, r.exc, NoneR, b, r.h, NoTol, NoPert, into)
 
 \* hist.add(other, w, edges_abs_tol=.., edges_rel_tol=..) / hist.add(other, w): the other histogram has
 \* the same edges but for one edge moved by a large relative amount or by a multiple of the tolerance.
@@ -124,7 +141,7 @@ Perts(x, tol) ==
             ELSE IF tol.kind = "abs" THEN {} ELSE {<<1, 2>>, <<1, 1>>, <<2, 1>>})}
 PertOK(x, pert) == IF pert.kind = "none" THEN TRUE ELSE pert.pos \in Positions(x.edges[pert.axis])
 IsTolHist(x) == x.oor = RI(0) /\ x.bins = IotaB(x.edges, 1, 0, 0)
-AddTol == Op /\ IsTolHist(a) /\ \E tol \in TolKinds : \E pert \in Perts(a, tol) :
+AddTol == Op /\ ~SeqOnly /\ IsTolHist(a) /\ excuse' = excuse /\ \E tol \in TolKinds : \E pert \in Perts(a, tol) :
   /\ PertOK(a, pert)
   /\ LET b == Hist(a.edges, ScaleB(a.bins, Len(a.edges), RI(3)), RI(1), NoneR)
          r == AddTolOp(a, b, RI(2), pert, tol) IN
@@ -174,7 +191,14 @@ AddCellwise == [][(IsOp("add") /\ L.ok) =>
 AddOnlyEqualEdges == [][IsOp("add") =>
                          /\ L.ok <=> (L.b.edges = a.edges)
                          /\ ~L.ok => L.exc = "LenaValueError"]_vars
-AddPure == [][IsOp("add") => a' = a]_vars
+AddPure == [][(IsOp("add") /\ ~L.into) => a' = a]_vars
+\* the sum is a new histogram: its scale has never been computed, whatever was stored for the operands
+AddIntoFresh == [][(IsOp("add") /\ L.into) =>
+                    /\ L.ok /\ a'.edges = a.edges /\ a'.bins = L.r.bins /\ a'.oor = L.r.oor
+                    /\ IsNone(a'.cache) /\ CurScale(a', FALSE) = Integral(a'.bins, a'.edges)]_vars
+\* the scale reported for a histogram is its integral, unless it was stored before a set_nevents
+\* (the documented case: "one must explicitly recompute the scale if it was computed before")
+CacheHonest == (~IsNone(a.cache) /\ a.cache # Integral(a.bins, a.edges)) => excuse
 \* subtracting a histogram from itself leaves nothing
 AddNegZero == [][(IsOp("add") /\ L.kind = "neg" /\ L.w = 1) =>
                   /\ \A c \in Cells(a.edges) : RIsZero(Get(L.r.bins, c))
